@@ -4,6 +4,7 @@ Run by hand when contracts change; never at check time."""
 import glob, json, os, sys
 sys.path.insert(0, os.path.dirname(os.path.abspath(__file__)))
 import run as R
+import residue as RES
 VERIF = R.VERIF
 led_path = os.path.join(VERIF, 'ledger.json')
 led = json.load(open(led_path)) if os.path.exists(led_path) else {}
@@ -17,5 +18,10 @@ for u in units:
         continue
     led[u] = {'verified': r.verified, 'errors': r.errors,
               'functions': sorted(n for n, st in r.functions.items() if st['success'] and 'impl&%' not in n),
-              'failing_on_pinned_tree': sorted(f['obligation'] for f in r.failures)}
+              'failing_on_pinned_tree': sorted(f['obligation'] for f in r.failures),
+              'residue': RES.unit_residue(u)}
+files = set()
+for l in open(os.path.join(VERIF, 'properties.jsonl')):
+    files |= set(x for x in json.loads(l).get('anchors', {}).get('files', []) if x.endswith('.rs'))
+led['_files'] = {x: RES.whole_file(x) for x in sorted(files)}
 json.dump(led, open(led_path, 'w'), indent=1, sort_keys=True)
